@@ -56,7 +56,7 @@ Proof.
   destruct l as [|b l]; [reflexivity|].
   change (upd_last f (a :: b :: l)) with (a :: upd_last f (b :: l)).
   rewrite last_opt_cons by (apply upd_last_ne; discriminate).
-  rewrite IH. rewrite last_opt_cons by discriminate. reflexivity.
+  rewrite IH. rewrite (last_opt_cons _ a (b :: l)) by discriminate. reflexivity.
 Qed.
 
 Lemma upd_nth_length : forall (A : Type) (f : A -> A) (l : list A) n,
@@ -299,11 +299,12 @@ Proof.
 Qed.
 
 (* the local [find] of race_goroutine_step *)
-Fixpoint find_id (id : N) (i : nat) (l : list Goroutine) : option nat :=
-  match l with
-  | [] => None
-  | g :: l' => if Z.eqb (ID g) (Z.of_N id) then Some i else find_id id (S i) l'
-  end.
+Definition find_id (id : N) : nat -> list Goroutine -> option nat :=
+  fix find (i : nat) (l : list Goroutine) : option nat :=
+    match l with
+    | [] => None
+    | g :: l' => if Z.eqb (ID g) (Z.of_N id) then Some i else find (S i) l'
+    end.
 
 Lemma find_id_bound : forall id l i j, find_id id i l = Some j -> i <= j < i + List.length l.
 Proof.
@@ -629,7 +630,7 @@ Proof.
       * apply stepok_ret, post_same, HI.
   - (* betweenRaceOperations *)
     destruct (race_op_header s (match_race_prev t) false t) as [r|] eqn:Hr.
-    + apply (race_op_header_ok _ _ _ _ _ HI ltac:(discriminate) Hr).
+    + apply (race_op_header_ok s (match_race_prev t) false t r HI); [intros Hf; discriminate Hf|exact Hr].
     + apply race_goroutine_step_ok, HI.
   - (* gotRaceGoroutineHeader *)
     apply race_goroutine_func_step_ok; [exact HI|exact HI0].
